@@ -40,6 +40,8 @@ def runMac (_prop : String) (f : List String) (obsS : String) : Verdict :=
       let configured : Option ClientCfg := if pfx == "UNSET" then none else some ⟨unhex pfx, tags, if cidS == "~" then none else some (unhex cidS)⟩
       let invs := invsS.splitOn ";"
       let late := invs.contains "SET"
+      if obsS.endsWith ";PRINTED" then
+        ⟨false, obsS, "", some ("C17", "a macro invocation printed to stdout / stderr (failures are reported to the client's error handler only)"), ["printed"], false⟩ else
       let obs := obsS.splitOn ";"
       if invs.length ≠ obs.length then badCase else
       let rec go (i : Nat) (is os : List String) (mp : List String) (v : Option (String × String)) (tg : List String)
@@ -48,6 +50,29 @@ def runMac (_prop : String) (f : List String) (obsS : String) : Verdict :=
         | inv :: is', o :: os' =>
           if inv == "SET" then go (i + 1) is' os' ("set" :: mp) v ("late-set" :: tg) configured else
           match inv.splitOn "/" with
+          | ["hnest", k, vS, _, s] =>
+            -- the sink refuses the gauge; the handler, once invoked, invokes `statsd_count!("from.handler", 1)`
+            -- itself, whose metric is accepted: evals, E(outer), H(err), then the inner invocation's E
+            let sink := SinkOut.refuse ((s.drop 1).toString.toNat?.getD 0)
+            match entryOf "count_i64", entryOf "gauge_u64" with
+            | some ec, some eg =>
+              match parseArg ec "1", parseArg eg vS with
+              | some a1, some ag =>
+                match macroTrace global ec "from.handler".toUTF8.toList a1 [] .accept (i + 1),
+                      macroTrace global eg (unhex k) ag [] sink (i + 1) with
+                | some inner, some outer =>
+                  let tr := if global.isNone then [MEv.panic] else outer ++ inner.drop 2
+                  let m := joinWith "," (tr.map fmtEv)
+                  let v' := match v with
+                    | some x => some x
+                    | none =>
+                      if o == m then none
+                      else if global.isNone then some ("C17", "no panic (or arguments evaluated) although no global client is set")
+                      else some ("C17", "a macro invoked from the global client's error handler did not send what the tagged quiet call sends (or the outer one did not report its failure to the handler once)")
+                  go (i + 1) is' os' (m :: mp) v' ("from-handler" :: tg) global
+                | _, _ => badCase
+              | _, _ => badCase
+            | _, _ => badCase
           | ["nest", k, vS, _, s] =>
             -- statsd_gauge!(key, { statsd_count!("inner.calls", 1); v }): the inner invocation is complete
             -- (sent, accepted) before the outer one sends
@@ -92,5 +117,16 @@ def runMac (_prop : String) (f : List String) (obsS : String) : Verdict :=
           ⟨mps == obsS, obsS, mps, v, (if global.isNone then ["unset"] else []) ++ tg.eraseDups, false⟩
       go 0 invs obs [] none [] (if late then none else configured)
   | _ => badCase
+
+/-- the macros expanded in a crate built with `cfg(test)`: same behaviour -/
+def runMact (_prop : String) (f : List String) (obsS : String) : Verdict :=
+  let expected := match f with
+    | [_, "unset"] => "PANIC"
+    | _ => "0,1,E" ++ hex "p.k:1|c".toUTF8.toList
+  let v : Option (String × String) :=
+    if obsS == expected then none
+    else if obsS == "test-binary-missing" then some ("C17", "the cfg(test) expansion of the macros could not be built or run")
+    else some ("C17", "expanded inside a crate compiled with cfg(test) the macro does not panic iff unset / send what the tagged quiet call sends: " ++ obsS)
+  ⟨obsS == expected, obsS, expected, v, ["cfg-test-expansion"], false⟩
 
 end Drv.MacrosE
